@@ -96,6 +96,8 @@ func (env *SpecEnv) eval(e SExpr) Val {
 		return Val{T: app("-", v.T), Ty: v.Ty, So: "Int"}
 	case *SDeref:
 		p := env.eval(x.X)
+		u.inSpec++
+		defer func() { u.inSpec-- }()
 		return u.deref(env.stateForRead(), p, token.NoPos)
 	case *SCond:
 		c := env.evalBool(x.C)
